@@ -40,7 +40,7 @@ SHAPES = OrderedDict(
         ("p2_both_d", ("Summary line", [("a", "int", P, D), ("b", "str", "the b", "x")], None)),
         ("p2_noprose", ("Summary line", [("a", "int", None, D), ("b", "str", P, ABSENT)], None)),
         ("p1_ret", ("Summary line", [("a", "int", P, ABSENT)], ("bool", "the result", ABSENT))),
-        ("p1_ret_d", ("Summary line", [("a", "int", P, D)], ("int", "the result", "```a```"))),
+        ("p1_ret_d", ("Summary line", [("a", "int", P, D)], ("Tuple[int, int]", "the result", "```(a, a)```"))),
         ("p0", ("Summary line", [], None)),
         ("ret_only", ("Summary line", [], ("int", P, ABSENT))),
         ("p1_kwargs", ("Summary line", [("a", "int", P, D), ("data_loader_kwargs", "Optional[dict]", "extra args", NoneStr)], None)),
@@ -64,8 +64,21 @@ def holes_of(shape_id):
     return hs
 
 
+def fixlen(x, maxlen=8):
+    """Rebuild a symbolic str as a string of *concrete length* (one path per length).  CrossHair keeps the length of a
+    symbolic str symbolic even when constraints pin it; every later index / slice / compare then costs solver calls
+    (measured: 34 s per path vs 1.1 s after this step).  Pure engineering: the value is unchanged."""
+    if not isinstance(x, str):
+        return x
+    for n in range(maxlen + 1):
+        if len(x) == n:
+            return "".join([x[i] for i in range(n)])
+    return x
+
+
 def mk_ir(shape_id, p=None, d=None, s=None, b=None):
     summary, params, ret = SHAPES[shape_id]
+    p, s = fixlen(p), fixlen(s)
     sub = {P: p, D: d, S: s, B: b}
 
     def f(v):
@@ -150,6 +163,9 @@ def same_default(got, want):
         return _is_none(got)
     if type(got) is not type(want):
         return False
+    if isinstance(want, str) and len(want) > 6 and want.startswith("```") and want.endswith("```"):
+        # I5: back-tick quoting marks a code expression and is presentation only: ```X``` and X are the same expression
+        return got.strip("`") == want.strip("`")
     return got == want
 
 
@@ -204,7 +220,9 @@ def entry_diffs(got, want, kind, defaults_on, ws=False, is_return=False, name=""
     elif not w_has_d and "default" in got:
         g = got["default"]
         base = want.get("typ") or ""
-        if _is_none(g):
+        if kind == "argparse" and isinstance(g, str) and g == "":
+            out.append("default-invented-zero")  # str is argparse's fallback type; '' its zero value
+        elif _is_none(g):
             out.append("default-invented-none")
         elif base in ZERO and type(g) is type(ZERO[base]) and g == ZERO[base]:
             out.append("default-invented-zero")
